@@ -29,7 +29,17 @@
 (*   files     head x body x tail: what files begin and end with           *)
 (*   long      unit^count \o window: very long lines / very many lines;    *)
 (*             only the window is validated token by token (see below)     *)
+(*   actx      (round 3) context x EVERY 7-bit character x context: stray  *)
+(*             characters before LF / CR LF / end / digit / letter, outside *)
+(*             and inside strings and comments, with lines after it         *)
+(*   apair     (round 3) every PAIR of 7-bit characters in four contexts    *)
+(*   bigint    (round 3) digit runs around 2^k and 10^k (value boundary of  *)
+(*             the Int token), leading zeros, in context                    *)
+(*   floatlim  (round 3) float forms at the limits of the double range      *)
+(*   longnum   (round 3) digit runs of up to 310 digits in every number form *)
 (*   free      any text (random longer texts, replays)                     *)
+(* Round 3: a recorded Int / Float token also carries its VALUE (val, a     *)
+(* string); the specification decides it (SyltLexNum) and TokEq compares.   *)
 (*                                                                         *)
 (* The machine is deterministic: blanks are skipped silently, then the     *)
 (* next recorded token must equal one of the tokens SyltLex's Emit actions *)
@@ -128,6 +138,168 @@ FileAt(idx) ==
     IN FHeads[h + 1] \o FBodies[b + 1] \o FTails[tl + 1]
 
 ---------------------------------------------------------------------------
+(* Round 3.  The 7-bit characters as the specification sees them: a character of the documented token
+   alphabet is itself, any other 7-bit character is the stand-in of its class (VT and FF are white space
+   that is no blank: ~ ; all other controls, DEL and $ % & ; @ \ ^ ` ~ are in no token: $).  The recorder
+   feeds the tokenizer the REAL character of the code and maps it with its own class table; TraceInit
+   compares the two texts, so the tables have to agree. *)
+AsciiTab ==
+    <<"$", "$", "$", "$", "$", "$", "$", "$", "$", "\t", "\n", "~", "~", "\r", "$", "$",
+      "$", "$", "$", "$", "$", "$", "$", "$", "$", "$", "$", "$", "$", "$", "$", "$",
+      " ", "!", "\"", "#", "$", "$", "$", "'", "(", ")", "*", "+", ",", "-", ".", "/",
+      "0", "1", "2", "3", "4", "5", "6", "7", "8", "9", ":", "$", "<", "=", ">", "?",
+      "$", "A", "B", "C", "D", "E", "F", "G", "H", "I", "J", "K", "L", "M", "N", "O",
+      "P", "Q", "R", "S", "T", "U", "V", "W", "X", "Y", "Z", "[", "$", "]", "$", "_",
+      "$", "a", "b", "c", "d", "e", "f", "g", "h", "i", "j", "k", "l", "m", "n", "o",
+      "p", "q", "r", "s", "t", "u", "v", "w", "x", "y", "z", "{", "|", "}", "$", "$">>
+\* every character of the token alphabet is in the table exactly once; everything else is a stand-in
+ASSUME AsciiTabSound ==
+    /\ Len(AsciiTab) = 128
+    /\ \A c \in IdCont \cup Blank \cup {NL, DQ} : Cardinality({i \in 1..128 : AsciiTab[i] = c}) = 1
+    /\ \A f \in Fixed : \A q \in 1..Len(f) : Cardinality({i \in 1..128 : AsciiTab[i] = Ch(f, q)}) = 1
+    /\ \A i \in 1..128 : \/ AsciiTab[i] \in NonToken
+                         \/ Cardinality({i2 \in 1..128 : AsciiTab[i2] = AsciiTab[i]}) = 1
+
+(* actx: a stray character directly after / before everything that matters for it: start and end of the text, an
+   identifier, a number, a blank, a line start, an operator, inside an open string, inside a comment, after a
+   multi-line string, on the third line; followed by LF, CR LF, the end, a digit, a letter, and by further LINES
+   whose tokens have to keep their line numbers and columns. *)
+APre  == <<"", "e", "1", "e ", "e\n", "+", "\"a", "// c", "\"a\nb\" ", "e\n\n1 ">>
+APost == <<"", "\n", "\r\n", "1", "e", "\ne", "\r\ne 1", "\n1 e\n\"a\"\n", " \n", "\"\ne 1", "\n\n", "\n// c\ne">>
+ACtxSize == Len(APre) * 128 * Len(APost)
+ACtxAt(idx) ==
+    LET m == idx - 1
+        po == m % Len(APost)
+        c  == (m \div Len(APost)) % 128
+        pr == m \div (Len(APost) * 128)
+    IN APre[pr + 1] \o AsciiTab[c + 1] \o APost[po + 1]
+
+(* apair: every pair of 7-bit characters between two tokens with a line after it, alone, inside a string and
+   inside a comment (the context is the most significant part of the index: EXHLEN contexts are exhaustive) *)
+APairCtx == << <<"e ", "\ne 1">>, <<"", "">>, <<"\"", "\"\ne">>, <<"//", "\ne">> >>
+APairBlock == 128 * 128
+APairSize == Len(APairCtx) * APairBlock
+APairAt(idx) ==
+    LET m == idx - 1
+        c2 == m % 128
+        c1 == (m \div 128) % 128
+        cx == m \div APairBlock
+    IN APairCtx[cx + 1][1] \o AsciiTab[c1 + 1] \o AsciiTab[c2 + 1] \o APairCtx[cx + 1][2]
+
+(* bigint: the value boundary of the Int token.  Digit runs in the neighbourhood of the powers of two and of ten
+   that machine integers of any width end at, built by decimal arithmetic on strings (nothing here says which of
+   them is THE boundary - SyltLexNum!IntFits does): base 2^k or 10^k, one of ten variations (the base, +1, -1, +2,
+   -2, last digit dropped, 0 appended, 9 appended, first digit one up / one down), leading zeros, and a context
+   that makes the run an Int, the integer part of a Float (X. X.5 XeY), or the head of an error. *)
+RECURSIVE LxDoubleFrom(_, _, _)
+LxDoubleFrom(s, i, c) == IF i = 0 THEN (IF c = 1 THEN "1" ELSE "")
+                         ELSE LET v == 2 * LxVal(LxCh(s, i)) + c IN LxDoubleFrom(s, i - 1, v \div 10) \o LxDigits[(v % 10) + 1]
+LxDouble(s) == LxDoubleFrom(s, Len(s), 0)
+RECURSIVE LxAddFrom(_, _, _)
+LxAddFrom(s, i, c) == IF i = 0 THEN (IF c > 0 THEN LxDigits[c + 1] ELSE "")
+                      ELSE LET v == LxVal(LxCh(s, i)) + c IN LxAddFrom(s, i - 1, v \div 10) \o LxDigits[(v % 10) + 1]
+LxPlus(s, a) == LxAddFrom(s, Len(s), a)                  \* s + a, a in 0..9
+RECURSIVE LxSubFrom(_, _, _)
+LxSubFrom(s, i, b) == IF i = 0 THEN ""
+                      ELSE LET v == LxVal(LxCh(s, i)) - b IN
+                           IF v >= 0 THEN LxSubFrom(s, i - 1, 0) \o LxDigits[v + 1] ELSE LxSubFrom(s, i - 1, 1) \o LxDigits[v + 11]
+LxMinus(s, a) == LxStrip(LxSubFrom(s, Len(s), a))        \* s - a for s > a, a in 0..9
+RECURSIVE LxTwoPow(_)
+LxTwoPow(e) == IF e = 0 THEN "1" ELSE LxDouble(LxTwoPow(e - 1))
+
+RECURSIVE Rep(_, _)
+Rep(u, c) == IF c = 0 THEN ""
+             ELSE IF c % 2 = 0 THEN LET h == Rep(u, c \div 2) IN h \o h
+             ELSE u \o Rep(u, c - 1)
+
+BigTwoExps == <<7, 8, 15, 16, 31, 32, 53, 62, 63, 64, 65, 127, 128>>
+BigTenExps == <<9, 10, 15, 16, 17, 18, 19, 20, 21, 38, 39>>
+\* the powers of two written out (TLC would redo the doublings for every record); ASSUME BigTwoOK re-derives them once
+BigTwo == <<"128", "256", "32768", "65536", "2147483648", "4294967296", "9007199254740992", "4611686018427387904",
+            "9223372036854775808", "18446744073709551616", "36893488147419103232",
+            "170141183460469231731687303715884105728", "340282366920938463463374607431768211456">>
+ASSUME BigTwoOK == /\ Len(BigTwo) = Len(BigTwoExps)
+                   /\ \A i \in 1..Len(BigTwoExps) : BigTwo[i] = LxTwoPow(BigTwoExps[i])
+BigBases == Len(BigTwoExps) + Len(BigTenExps)
+BigBase(b) == IF b <= Len(BigTwoExps) THEN BigTwo[b] ELSE "1" \o Rep("0", BigTenExps[b - Len(BigTwoExps)])
+BigVars == 10
+BigVar(s, v) ==
+    CASE v = 1 -> s
+      [] v = 2 -> LxPlus(s, 1)
+      [] v = 3 -> LxMinus(s, 1)
+      [] v = 4 -> LxPlus(s, 2)
+      [] v = 5 -> LxMinus(s, 2)
+      [] v = 6 -> SubSeq(s, 1, Len(s) - 1)
+      [] v = 7 -> s \o "0"
+      [] v = 8 -> s \o "9"
+      [] v = 9 -> (IF LxCh(s, 1) = "9" THEN s ELSE LxDigits[LxVal(LxCh(s, 1)) + 2] \o SubSeq(s, 2, Len(s)))
+      [] v = 10 -> (IF LxCh(s, 1) = "1" THEN s ELSE LxDigits[LxVal(LxCh(s, 1))] \o SubSeq(s, 2, Len(s)))
+BigZeros == <<"", "0", "00", "00000000000000000000">>
+BigPre   == <<"", "-", "x = ", "e\n", "(">>
+BigPost  == <<"", "\n", " x", ")", ".", ".5", "e5", "e-5", "x", "e", "\n1", "..">>
+BigBlock == BigBases * BigVars * Len(BigZeros)           \* one context
+BigSize  == BigBlock * Len(BigPre) * Len(BigPost)
+BigAt(idx) ==
+    LET m  == idx - 1
+        b  == m % BigBases
+        v  == (m \div BigBases) % BigVars
+        z  == (m \div (BigBases * BigVars)) % Len(BigZeros)
+        cx == m \div BigBlock
+        pr == cx % Len(BigPre)
+        po == cx \div Len(BigPre)
+    IN BigPre[pr + 1] \o BigZeros[z + 1] \o BigVar(BigBase(b + 1), v + 1) \o BigPost[po + 1]
+
+(* floatlim: float forms at the limits of the double range: an integer part (none, zeros, 15 / 16 / 17 digits, the
+   digits of the largest double, of the rounding boundaries, 40 digits) x a tail (nothing, the point forms, the
+   exponent forms with exponents around 0, +-22, +-300, 308, -324, beyond, absurdly long, incomplete or doubled) x
+   a context.  What each text lexes to (Float, Int + identifier, Error ...) is decided by SyltLex as for any text. *)
+FlInts  == <<"", "0", "1", "9", "00001", "10000", "123456789012345", "1234567890123456", "17976931348623157",
+             "17976931348623158", "17976931348623159", "24703282292062327", "24703282292062328", "4940656458412465",
+             "22250738585072014", Rep("9", 40), "1" \o Rep("0", 40)>>
+FlTails == <<"", ".", ".0", ".5", ".25", ".000001", "." \o Rep("0", 40) \o "1", "." \o Rep("9", 40), ".5.", ".5e3", "..", ".e5",
+             "e0", "e1", "e+1", "e-1", "e15", "e22", "e23", "e-22", "e291", "e292", "e293", "e-300", "e-301", "e300", "e301",
+             "e307", "e308", "e309", "e+308", "e+309", "e-308", "e-323", "e-324", "e-325", "e-339", "e-340", "e-341",
+             "e400", "e-400", "e-707", "e-708", "e-724", "e-725", "e", "e+", "e-", "e99999999999999999999", "e-99999999999999999999",
+             "e00000000000000000308", "e-00000000000000000324", "E308", "e+-1", "e308e1", "e308.5", "e1x", "e 1">>
+FlPre   == <<"", "-", "x = ", "\n">>
+FlPost  == <<"", "\n", " x", ")">>
+FlBlock == Len(FlInts) * Len(FlTails)
+FlSize  == FlBlock * Len(FlPre) * Len(FlPost)
+FloatLimAt(idx) ==
+    LET m  == idx - 1
+        i  == m % Len(FlInts)
+        tl == (m \div Len(FlInts)) % Len(FlTails)
+        cx == m \div FlBlock
+        pr == cx % Len(FlPre)
+        po == cx \div Len(FlPre)
+    IN FlPre[pr + 1] \o FlInts[i + 1] \o FlTails[tl + 1] \o FlPost[po + 1]
+
+(* longnum: very long number forms (the validation of one token costs TLC time quadratic in its length, hence a small
+   universe of its own): a digit run D of 19 .. 310 digits - 1 followed by zeros, all nines, zeros followed by 1 - as an
+   Int, as the integer part, the fraction or the exponent of a Float.  309 / 310 digits before the point are the limit
+   of the double range reached by the NUMBER of digits. *)
+LnLens == <<19, 20, 40, 308, 309, 310>>
+LnShapes == 3
+LnDigits(sh, L) == CASE sh = 1 -> "1" \o Rep("0", L - 1)
+                     [] sh = 2 -> Rep("9", L)
+                     [] sh = 3 -> Rep("0", L - 1) \o "1"
+LnForms == 7
+LnForm(f, d) == CASE f = 1 -> d
+                  [] f = 2 -> d \o "."
+                  [] f = 3 -> "." \o d
+                  [] f = 4 -> d \o "e0"
+                  [] f = 5 -> d \o "e-400"
+                  [] f = 6 -> "1e" \o d
+                  [] f = 7 -> "1e-" \o d
+LnSize == Len(LnLens) * LnShapes * LnForms
+LongNumAt(idx) ==
+    LET m  == idx - 1
+        f  == m % LnForms
+        sh == (m \div LnForms) % LnShapes
+        l  == m \div (LnForms * LnShapes)
+    IN LnForm(f + 1, LnDigits(sh + 1, LnLens[l + 1]))
+
+---------------------------------------------------------------------------
 (* fragment universe: all concatenations of 1..3 fragments, joined by "" or " " *)
 Frags == <<"a", "e", "A9", "_", "if", "iff", "do", "end", "fn", "pu", "ret", "int", "str", "float",
            "bool", "void", "nil", "nile", "true", "truee", "false", "and", "or", "not", "loop",
@@ -177,10 +349,6 @@ LongU(idx) == LUnits[((idx - 1) \div (Len(LWindows) * Len(LCounts))) + 1]
 LongC(idx) == LCounts[(((idx - 1) \div Len(LWindows)) % Len(LCounts)) + 1]
 LongW(idx) == LWindows[((idx - 1) % Len(LWindows)) + 1]
 
-RECURSIVE Rep(_, _)
-Rep(u, c) == IF c = 0 THEN ""
-             ELSE IF c % 2 = 0 THEN LET h == Rep(u, c \div 2) IN h \o h
-             ELSE u \o Rep(u, c - 1)
 LongAt(idx) == Rep(LongU(idx), LongC(idx)) \o LongW(idx)
 
 (* the specification's tokenisation of t from p as a function (stops after the first error token) *)
@@ -220,14 +388,22 @@ UniverseSize ==
       [] Universe = "uctx"     -> UCtxSize
       [] Universe = "files"    -> FilesSize
       [] Universe = "long"     -> LongSize
+      [] Universe = "actx"     -> ACtxSize
+      [] Universe = "apair"    -> APairSize
+      [] Universe = "bigint"   -> BigSize
+      [] Universe = "floatlim" -> FlSize
+      [] Universe = "longnum"  -> LnSize
       [] OTHER                 -> 0
 ExhCount ==
     CASE Universe = "ustrings" -> NumStringsOver(Len(UAlphabet), ExhLen)
       [] Universe = "numgram"  -> NumStringsOver(Len(NumAlphabet), ExhLen)
       [] Universe = "numctx"   -> NumStringsOver(Len(NumAlphabet), ExhLen) * Len(NumPre) * Len(NumPost)
-      [] Universe \in {"uctx", "files"} -> IF ExhLen > 0 THEN UniverseSize ELSE 0
+      [] Universe \in {"uctx", "files", "actx", "longnum"} -> IF ExhLen > 0 THEN UniverseSize ELSE 0
+      [] Universe = "apair"    -> IF ExhLen > 0 THEN ExhLen * APairBlock ELSE 0     \* EXHLEN: number of exhaustive contexts
+      [] Universe = "bigint"   -> IF ExhLen > 0 THEN ExhLen * BigBlock ELSE 0
+      [] Universe = "floatlim" -> IF ExhLen > 0 THEN ExhLen * FlBlock ELSE 0
       [] OTHER                 -> 0
-Indexed == Universe \in {"ustrings", "numgram", "numctx", "uctx", "files", "long"}
+Indexed == Universe \in {"ustrings", "numgram", "numctx", "uctx", "files", "long", "actx", "apair", "bigint", "floatlim", "longnum"}
 
 \* the recorder announces how many exhaustive records it wrote; it has to be what the specification asks for
 ASSUME ExhAgreed == EnvInt("EXPECT_EXH", ExhCount) = ExhCount
@@ -240,6 +416,11 @@ CaseText(kk) == CASE Universe = "strings"  -> StringAt(Offset + kk)
                   [] Universe = "uctx"     -> UCtxAt(Rec[kk].idx)
                   [] Universe = "files"    -> FileAt(Rec[kk].idx)
                   [] Universe = "long"     -> LongAt(Rec[kk].idx)
+                  [] Universe = "actx"     -> ACtxAt(Rec[kk].idx)
+                  [] Universe = "apair"    -> APairAt(Rec[kk].idx)
+                  [] Universe = "bigint"   -> BigAt(Rec[kk].idx)
+                  [] Universe = "floatlim" -> FloatLimAt(Rec[kk].idx)
+                  [] Universe = "longnum"  -> LongNumAt(Rec[kk].idx)
                   [] OTHER                 -> Rec[kk].input
 
 IndexOK(kk) == Indexed => /\ Rec[kk].idx \in 1..UniverseSize
@@ -250,9 +431,14 @@ Origin == IF IsLong THEN LongC(Rec[k].idx) * Len(LongU(Rec[k].idx)) + 1 ELSE 1
 ---------------------------------------------------------------------------
 NT == Len(Rec[k].toks)
 
-TokEq(t, r) == /\ r.k = t.k
-               /\ r.line = t.line /\ r.cs = t.cs /\ r.lend = t.lend /\ r.ce = t.ce
-               /\ (t.k \in {"id", "str", "fx", "bool", "nil"} => r.txt = t.txt)
+TokEqNoVal(t, r) == /\ r.k = t.k
+                    /\ r.line = t.line /\ r.cs = t.cs /\ r.lend = t.lend /\ r.ce = t.ce
+                    /\ (t.k \in {"id", "str", "fx", "bool", "nil"} => r.txt = t.txt)
+\* the recorded value of a number token is the one the specification gives its text (SyltLexNum; values are strings)
+ValOK(t, r) == CASE t.k = "int"   -> r.val = IntValue(t.txt)
+                 [] t.k = "float" -> FloatValOK(t.txt, r.val)
+                 [] OTHER         -> TRUE
+TokEq(t, r) == TokEqNoVal(t, r) /\ ValOK(t, r)
 
 TraceInit ==
     /\ k \in 1..N
@@ -282,13 +468,13 @@ TracePrefix ==
     /\ IF ~PrefixCountOK
          THEN /\ st' = "fail"
               /\ PrintT(<<"REJECT", ToJson([rec |-> k, tok |-> 0, pos |-> 0, why |-> "prefix-token-count",
-                                            expected |-> {}, at |-> "none", next |-> "none", numlike |-> FALSE,
+                                            expected |-> {}, at |-> "none", next |-> "none", numlike |-> FALSE, valbad |-> FALSE,
                                             bad |-> {PrefToks(Rec[k].idx)}])>>)
          ELSE LET bad == PrefixBad IN
               IF bad # {}
                 THEN /\ st' = "fail"
                      /\ PrintT(<<"REJECT", ToJson([rec |-> k, tok |-> 0, pos |-> 0, why |-> "prefix-token",
-                                                   expected |-> {}, at |-> "none", next |-> "none", numlike |-> FALSE, bad |-> bad])>>)
+                                                   expected |-> {}, at |-> "none", next |-> "none", numlike |-> FALSE, valbad |-> FALSE, bad |-> bad])>>)
                 ELSE st' = "run"
     /\ UNCHANGED <<text, pos, toks, k, j>>
 
@@ -326,6 +512,10 @@ NumLike ==
        /\ \E q \in pos..(pos + n - 1) : Ch(text, q) \in UniDigit
        /\ LET s == AsciiDigits(Sub(text, pos, n)) IN IsInt(s, 1, n) \/ IsFloat(s, 1, n)
 
+ValBad ==      \* the recorded token is the expected one except for its value
+    /\ pos <= Len(text) /\ j <= NT
+    /\ \E t \in Expected(text, pos) : TokEqNoVal(t, Rec[k].toks[j]) /\ ~ValOK(t, Rec[k].toks[j])
+
 NextClass ==   \* the class of the character that follows the expected token
     IF pos <= Len(text) /\ MatchLens(text, pos) # {}
       THEN LET q == pos + SetMax(MatchLens(text, pos)) IN IF q <= Len(text) THEN ClassName(Ch(text, q)) ELSE "end"
@@ -340,7 +530,7 @@ TraceReject ==
                                   expected |-> IF pos <= Len(text) /\ MatchLens(text, pos) # {}
                                                THEN Expected(text, pos) ELSE {},
                                   at |-> IF pos <= Len(text) THEN ClassName(Ch(text, pos)) ELSE "end",
-                                  next |-> NextClass, numlike |-> NumLike, bad |-> {}])>>)
+                                  next |-> NextClass, numlike |-> NumLike, valbad |-> ValBad, bad |-> {}])>>)
     /\ UNCHANGED <<text, pos, toks, k, j>>
 
 TraceNext == TracePrefix \/ TraceSkip \/ TraceEmit \/ TraceAccept \/ TraceReject
